@@ -790,7 +790,7 @@ def _find_app(term, name):
 
 
 def git_no_color_flag(path):
-    "with colour disabled the git command has every colour flag removed (' --color-words' replaced by '')"
+    "with colour disabled the git command asks for no colour whatever the user's git configuration says (' --color-words' replaced by ' --no-color')"
     from pyvc.effects import attr_fn
     ex = _eff(path, 'ext_diff')
     if not ex:
@@ -800,7 +800,8 @@ def git_no_color_flag(path):
     cmd_term = as_py(ex[0].args[0])
     if not path.possible(z3.Not(use_color)):
         return True, 'colour on'
-    # under (path condition and colour off) the command must be git_diff_print_cmd with " --color-words" replaced by ""
+    # under (path condition and colour off) the command must be git_diff_print_cmd with " --color-words" replaced by " --no-color"
+    # (merely dropping the flag leaves the decision to color.ui / color.diff of the user's git configuration: `always` colours a pipe)
     rep = _find_app(cmd_term, '*.replace')
     if rep is None:
         return False, 'colour may be off on this path but no flag is removed from the git command'
@@ -809,9 +810,9 @@ def git_no_color_flag(path):
     from pyvc.effects import as_py as _ap, const as _c
     s_ = path.solver()
     s_.add(z3.Not(use_color))
-    s_.add(rep.arg(2) != _ap(_c('')))
+    s_.add(rep.arg(2) != _ap(_c(' --no-color')))
     ok = s_.check() == z3.unsat
-    return ok, 'colour off => " --color-words" replaced by the empty string'
+    return ok, 'colour off => " --color-words" replaced by " --no-color"'
 
 
 def src_highlight_only_with_color(path):
